@@ -92,6 +92,16 @@ func NewLeaseSet(
 ) (*LeaseSet, error) {
 	log.Debug("Creating new LeaseSet")
 
+	if encryptionKey == nil {
+		return nil, oops.Errorf("encryption key is required")
+	}
+	if signingKey == nil {
+		return nil, oops.Errorf("signing key is required")
+	}
+	if signingPrivateKey == nil {
+		return nil, oops.Errorf("signing private key is required")
+	}
+
 	if err := validateLeaseSetInputs(dest, encryptionKey, signingKey, leases); err != nil {
 		return nil, err
 	}
